@@ -537,7 +537,53 @@ def eval_cell(case):
     return out, info
 
 
+# finding D30: an implementation whose designated cell is one of its ports (Verilog-style feed-through input cell -> fork -> output
+# cell as first output). substitute() gives the instance the kind of the port cell and copies the line port cell -> fork, whose
+# reader pin is then taken by the instance's own input line: the circuit is no longer well-formed (Lean witness
+# C10.substitute_designated_port_not_wf), and a following copy() / pickle round trip connects the fork to the stale line.
+# The case is replayed every run from corpus/C10-designated-port.json.
+FEEDTHROUGH = {'kind': 'subst-copy', 'cell': 'u',
+               'host': {'nodes': [['i', 'input'], ['u', 'CELL'], ['o', 'output']], 'lines': [[0, 0, 1, 0], [1, 0, 2, 0]], 'io': [0, 2]},
+               'impl': {'nodes': [['A', 'input'], ['a', '__fork__'], ['X', 'output']], 'lines': [[0, 0, 1, 0], [1, 0, 2, 0]], 'io': [0, 2]}}
+
+
+def eval_subst_copy(case):
+    """case: {'kind':'subst-copy', 'host': json, 'impl': json, 'cell': name}: substitute(cell, impl), then copy(): the function at the
+    ports / state elements must survive both, and the result of substitute must be a well-formed dump (up to trailing None)"""
+    c, impl = from_json(case['host']), from_json(case['impl'])
+    keys = source_keys(c)
+    rows, n = make_rows(random.Random(0), keys)
+    ref = simulate(c, rows, n) if not has_lib_cells_kind(c, case['cell']) else None
+    try:
+        c.substitute(c.cells[case['cell']], impl)
+    except Exception as ex:
+        return [], {'raised': type(ex).__name__}
+    out = []
+    wfnt = common.run_driver([f'xform wfnt {names_arg(c)} {circ.dump_net(c)}'])[0]
+    try:
+        a = simulate(c, rows, n)
+        b = simulate(c.copy(), rows, n)
+    except Exception as ex:
+        return [('substitute-designated-port', f'simulation after substitute / copy raised {type(ex).__name__}: {ex}'[:300],
+                 {'wfNoTrail': wfnt}, {'wfNoTrail': '1'})], {}
+    if a != b:
+        d = first_table_diff(a, b, rows, n)
+        out.append(('substitute-designated-port', 'copy() after substitute() changes the function', {'wfNoTrail': wfnt, 'diff': d},
+                    {'wfNoTrail': '1', 'same_function': True}))
+    elif wfnt != '1':
+        out.append(('substitute-designated-port', 'substitute() returns a circuit that is not well-formed', {'wfNoTrail': wfnt}, {'wfNoTrail': '1'}))
+    return out, {'wfNoTrail': wfnt}
+
+
+def has_lib_cells_kind(c, name):
+    return True     # the instance is not simulable before the substitution: no reference before
+
+
 def eval_case(case):
+    if case['kind'] == 'subst-copy':
+        f, _ = eval_subst_copy(case)
+        if not f: return True, None, None
+        return False, {'class': f[0][0], 'what': f[0][1], 'observed': f[0][2], 'all_classes': [x[0] for x in f]}, f[0][3]
     f, _ = (eval_compose if case['kind'] == 'compose' else eval_cell)(case)
     if not f: return True, None, None
     return False, {'class': f[0][0], 'what': f[0][1], 'observed': f[0][2], 'all_classes': [x[0] for x in f]}, f[0][3]
@@ -673,6 +719,8 @@ WHAT = {
                              'not with the pin reading 0 as in the implementation circuit',
     'state-cell-renamed': 'the state element of a substituted cell gets the name <instance>~<internal> because the first output is not driven by it',
     'function-changed': 'the Boolean function at a port / state element changed',
+    'substitute-designated-port': 'substitute() with an implementation whose designated cell is one of its ports (Verilog-style feed-through as '
+                                  'first output) returns a circuit that is not well-formed; copy() / pickle of it change the function',
 }
 
 
@@ -894,6 +942,7 @@ def corr_subst(ck, n):
         htags.append('regular' if is_regular(c, u, impl) else 'not-regular')
         d0, nm, idx = circ.dump_net(c), names_arg(c), u.index
         req = f'subst {idx} {nm} {names_arg(impl)} {d0} @@ {circ.dump_net(impl)}'
+        hjson, ijson = to_json(c), to_json(impl)
         nodes0, lines0 = len(c.nodes), len(c.lines)
         try:
             c.substitute(u, impl); real = full_dump(c)
@@ -911,6 +960,17 @@ def corr_subst(ck, n):
             ck.broken_tie('substitute model correspondence: regularB', f'model {flag} != harness {htags[-1]}', inp={'request': req})
         feats = impl_features(impl)
         if real != 'raise' and (len(c.nodes) < nodes0 + sum(1 for q in impl.nodes if q not in impl.io_nodes) - 1): changed += 1
+        if real != 'raise':
+            # the result must be a well-formed dump up to trailing None (class substitute-designated-port otherwise)
+            try:
+                if common.run_driver([f'xform wfnt {names_arg(c)} {circ.dump_net(c)}'])[0] != '1':
+                    case = {'kind': 'subst-copy', 'cell': 'u', 'host': hjson, 'impl': ijson}
+                    f, _ = eval_subst_copy(case)
+                    report(ck, case, f or [('substitute-designated-port', 'substitute() returns a circuit that is not well-formed',
+                                            {'wfNoTrail': '0'}, {'wfNoTrail': '1'})],
+                           ('subst-copy', req), True, None, ['stream:corr-subst-wf'])
+            except Exception as ex:
+                ck.broken_tie('well-formedness of the substitute result', f'{type(ex).__name__}: {ex}'[:300], inp={'request': req})
         # hypotheses of the theorem C10.substitute_sem evaluated on this case (coverage of the theorem on real circuits), and its
         # conclusion `result well-formed` checked on the dump of the REAL result
         semtag = 'sem-hyp:raise'
@@ -1128,7 +1188,7 @@ def run(ck):
     thorough = ck.tier == 'thorough'
     for case in corpus_cases():
         try:
-            f, info = (eval_compose if case['kind'] == 'compose' else eval_cell)(case)
+            f, info = (eval_subst_copy if case['kind'] == 'subst-copy' else eval_compose if case['kind'] == 'compose' else eval_cell)(case)
         except Exception as ex:
             f, info = [('harness', f'{type(ex).__name__}: {ex}'[:300], None, None)], {}
         report(ck, case, f, ('corpus', json.dumps(case, sort_keys=True)), True, None, ['stream:corpus'])
